@@ -101,7 +101,32 @@ func (p *objectWalker) walkAllRefs() error {
 		}
 		return p.walkObjectTree(ref.Hash())
 	})
-	return err
+	if err != nil {
+		return err
+	}
+	return p.walkIndex()
+}
+
+// walkIndex marks the objects named by the index entries: staged
+// content that has not been committed yet is referenced from nowhere
+// else.
+func (p *objectWalker) walkIndex() error {
+	idx, err := p.Storer.Index()
+	if err != nil {
+		return err
+	}
+	for _, e := range idx.Entries {
+		if e.Mode == filemode.Submodule || p.isSeen(e.Hash) {
+			continue
+		}
+		// An entry may name an object that is not stored locally
+		// (intent-to-add, partial clone): there is nothing to keep.
+		if p.Storer.HasEncodedObject(e.Hash) != nil {
+			continue
+		}
+		p.add(e.Hash)
+	}
+	return nil
 }
 
 func (p *objectWalker) isSeen(hash plumbing.Hash) bool {
